@@ -103,6 +103,9 @@ pub enum COp {
     Register { t: u32 },
     /// commitment_revocation notification for commitment #c
     Revoke { c: u32 },
+    /// The same notification delivered twice with both handlers in flight at once (the plugin runtime serves every request
+    /// in its own task): the second is written before the first has been answered.
+    RevokeTwice { c: u32 },
     /// Virtual time passes.
     Advance { secs: u32 },
     /// Replies the tower gives to its next requests (then back to its default).
@@ -152,6 +155,7 @@ impl COp {
         match self {
             COp::Register { .. } => "register",
             COp::Revoke { .. } => "revoke",
+            COp::RevokeTwice { .. } => "revoke_twice",
             COp::Advance { .. } => "advance",
             COp::Script { .. } => "script",
             COp::Default { .. } => "default",
@@ -1358,7 +1362,7 @@ pub fn run_client(hist: &ClientHistory) -> ClientResult {
                     let again: Vec<u32> = std::mem::take(&mut s.unanswered);
                     for c in again {
                         s.probe("hook_redelivered");
-                        if s.do_revoke(&mut ld, c, &killed).await {
+                        if s.do_revoke(&mut ld, c, &killed, false).await {
                             return SessionEnd::Killed;
                         }
                     }
@@ -1479,7 +1483,7 @@ pub fn run_client(hist: &ClientHistory) -> ClientResult {
 
 impl<'a> Session<'a> {
     /// Sends a commitment_revocation hook and waits for its answer. Returns true if the client died meanwhile.
-    async fn do_revoke(&mut self, ld: &mut Lightningd, c: u32, killed: &Arc<AtomicBool>) -> bool {
+    async fn do_revoke(&mut self, ld: &mut Lightningd, c: u32, killed: &Arc<AtomicBool>, twice: bool) -> bool {
         let params = self.revocation_params(c);
         let loc = self.locator_of(c);
         let live: BTreeSet<u32> = (0..self.towers.len() as u32)
@@ -1489,7 +1493,22 @@ impl<'a> Session<'a> {
             })
             .collect();
         let log_before = self.net.st.lock().unwrap_or_else(|e| e.into_inner()).log.len();
-        let r = ld.call("commitment_revocation", params, 600).await;
+        let first = if twice {
+            ld.next_id += 1;
+            let id = ld.next_id;
+            ld.send_raw(json!({"jsonrpc": "2.0", "id": id, "method": "commitment_revocation", "params": params.clone()})).await;
+            self.probe("notification_delivered_twice_concurrently");
+            Some(id)
+        } else {
+            None
+        };
+        let mut r = ld.call("commitment_revocation", params, 600).await;
+        if let Some(id) = first {
+            let r1 = ld.wait_reply(id, 600).await;
+            if r1.is_none() {
+                r = None;
+            }
+        }
         if killed.load(Ordering::SeqCst) {
             self.unanswered.push(c);
             return true;
@@ -1665,7 +1684,10 @@ impl<'a> Session<'a> {
                 self.check_store(&format!("after registertower {t}"), v.as_ref());
             }
             COp::Revoke { c } => {
-                return self.do_revoke(ld, *c, killed).await;
+                return self.do_revoke(ld, *c, killed, false).await;
+            }
+            COp::RevokeTwice { c } => {
+                return self.do_revoke(ld, *c, killed, true).await;
             }
             COp::Advance { secs } => {
                 tokio::time::sleep(Duration::from_secs(*secs as u64)).await;
